@@ -1,3 +1,5 @@
+import Sparrow.Proofs.PatchKernelCorollaries
+import Sparrow.Proofs.PatchKernelEquiv
 import Sparrow.Proofs.Relabel
 import Sparrow.Proofs.Tiling
 /-
@@ -93,3 +95,54 @@ theorem monoCurveCode_relabel (sc : ExScene ℝ) (hwf : sc.WF) (σ τ : Nat → 
   Sparrow.monoCurveCode_relabel sc hwf σ τ h K g w binR t
 
 end Sparrow.Props.C08.Relabel
+
+namespace Sparrow.Props.C08.Translated
+open Sparrow Sparrow.Generated.Patches
+
+/-- `_total_number_of_patches` (translated) = number of cells of the model's grid; `none` = the
+    UnboundLocalError of the Python text when no extent is smaller than the patch size. -/
+theorem totalNumberOfPatches_eq [Cmp α] [Add α] [Sub α] [Mul α] [Div α] [ToBin α] [NatCast α]
+    (w : Quad α) (p : α) (junk : Nat → α) :
+    totalNumberOfPatches w 4 3 p junk = (grid w p).map totalPatches :=
+  Sparrow.totalNumberOfPatches_eq w p junk
+
+/-- `_create_patches` (translated) agrees with the model (`CreatePatchesAgree`): both stop (`none`: no flat axis), or the
+    same patch count and, below it, the model's patches vertex by vertex and axis by axis; rows at or beyond the count keep
+    the content of the `np.empty` buffer.  For every scalar type (reals and float64 alike) and every buffer content. -/
+theorem createPatches_eq [Cmp α] [Add α] [Sub α] [Mul α] [Div α] [ToBin α] [NatCast α]
+    (w : Quad α) (p : α) (junk1 : Nat → α) (junk2 : Nat → Nat → Nat → α) :
+    CreatePatchesAgree w junk2 (createPatches w 4 3 p junk1 junk2) (grid w p) :=
+  Sparrow.createPatches_eq w p junk1 junk2
+
+end Sparrow.Props.C08.Translated
+
+namespace Sparrow.Props.C08.TranslatedTiling
+open Sparrow Sparrow.Generated.Patches
+
+/-- **C08 on the translated source text**: for an axis-aligned rectangular wall and `0 < p ≤ sx, sy` the translated
+    `_create_patches` returns ⌊sx/p⌋·⌊sy/p⌋ patches (both factors ≥ 1); patch `ix·ny + iy` is the rectangle
+    `[x0+ix·rx, x0+(ix+1)·rx] × [y0+iy·ry, y0+(iy+1)·ry]` (vertex order lo-lo, hi-lo, hi-hi, lo-hi) in the wall's plane. -/
+theorem createPatches_rect (w : Quad ℝ) (fl xa ya : Nat) (x0 y0 sx sy z p : ℝ)
+    (h : RectWall w fl xa ya x0 y0 sx sy z) (hp : 0 < p) (hpx : p ≤ sx) (hpy : p ≤ sy)
+    (junk1 : Nat → ℝ) (junk2 : Nat → Nat → Nat → ℝ) :
+    ∃ A, createPatches w 4 3 p junk1 junk2 = some (⌊sx / p⌋₊ * ⌊sy / p⌋₊, A) ∧
+      1 ≤ ⌊sx / p⌋₊ ∧ 1 ≤ ⌊sy / p⌋₊ ∧
+      (∀ ix iy, ix < ⌊sx / p⌋₊ → iy < ⌊sy / p⌋₊ →
+        let rx := sx / (⌊sx / p⌋₊ : ℝ)
+        let ry := sy / (⌊sy / p⌋₊ : ℝ)
+        let q := A (ix * ⌊sy / p⌋₊ + iy)
+        (q 0 xa = x0 + ix * rx ∧ q 0 ya = y0 + iy * ry) ∧
+        (q 1 xa = x0 + (ix + 1) * rx ∧ q 1 ya = y0 + iy * ry) ∧
+        (q 2 xa = x0 + (ix + 1) * rx ∧ q 2 ya = y0 + (iy + 1) * ry) ∧
+        (q 3 xa = x0 + ix * rx ∧ q 3 ya = y0 + (iy + 1) * ry) ∧
+        (∀ v, v < 4 → q v fl = z)) ∧
+      (∀ k, ⌊sx / p⌋₊ * ⌊sy / p⌋₊ ≤ k → A k = junk2 k) :=
+  Sparrow.createPatches_rect w fl xa ya x0 y0 sx sy z p h hp hpx hpy junk1 junk2
+
+/-- and `_total_number_of_patches` (translated) returns that count -/
+theorem totalNumberOfPatches_rect (w : Quad ℝ) (fl xa ya : Nat) (x0 y0 sx sy z p : ℝ)
+    (h : RectWall w fl xa ya x0 y0 sx sy z) (hp : 0 < p) (hpx : p ≤ sx) (hpy : p ≤ sy) (junk : Nat → ℝ) :
+    totalNumberOfPatches w 4 3 p junk = some (⌊sx / p⌋₊ * ⌊sy / p⌋₊) :=
+  Sparrow.totalNumberOfPatches_rect w fl xa ya x0 y0 sx sy z p h hp hpx hpy junk
+
+end Sparrow.Props.C08.TranslatedTiling
